@@ -503,16 +503,20 @@ def next_time_of(case, c, cnt, times):
 
 def walk_trace(case, obs):
     """Generator over the run-phase trace: yields ("update", c, newtime, times_before, cnt_before, tracker) before
-    the pulls of that update are replayed, and ("pull", c, i, t, observed_time_or_None, expected, tracker)."""
+    the pulls of that update are replayed, and ("pull", c, i, t, observed_time_or_None, expected, tracker).
+    [times] are the component clocks; [tracker.pubs] the newest publication of every time component (they differ for
+    components that publish only at every p-th update) — what a SOURCE offers is judged by the latter."""
     comps = case["comps"]
     tr = LinkTracker(case, obs)
     times = {k: c["start"] for k, c in enumerate(comps) if c["kind"] == "T"}
+    pubs = dict(times)
     cnt = {k: 0 for k in times}
+    tr.pubs = pubs
     # connect-phase pulls that succeeded: exactly one per initpull input, for t0 (through pull-based components too)
     for k, c in enumerate(comps):
         if c["kind"] == "T" and c.get("initpull"):
             for i, _ in enumerate(c["inputs"]):
-                _replay_pull(tr, k, i, obs["t0"], times)
+                _replay_pull(tr, k, i, obs["t0"], pubs)
     evs = obs["events"]
     n = len(evs)
     j = 0
@@ -523,12 +527,15 @@ def walk_trace(case, obs):
             if pending is not None:
                 times[pending[0]] = pending[1]
                 cnt[pending[0]] += 1
+                if cnt[pending[0]] % max(1, comps[pending[0]].get("pubevery", 1)) == 0:
+                    pubs[pending[0]] = pending[1]
+            tr.pubs = dict(pubs)
             yield ("update", e[1], e[2], dict(times), dict(cnt), tr)
             pending = (e[1], e[2])
             j += 1
         elif e[0] == "P":
             c, i, t = e[1], e[2], e[3]
-            exp, buf, cut = tr.record_pull(c, i, t, times)
+            exp, buf, cut = tr.record_pull(c, i, t, pubs)
             seen = evs[j + 1] if j + 1 < n and evs[j + 1][0] in ("S", "B") else None
             yield ("pull", c, i, t, seen, (exp, buf, cut), tr)
             j += 1
@@ -727,7 +734,9 @@ def gen_sparse(rng):
     for _ in range(rng.choice([1, 2, 2, 3])):
         ins = []
         for _ in range(rng.choice([1, 1, 2])):
-            if relay is not None and not any(i["src"][0] == relay for c in comps for i in c["inputs"]) and rng.random() < 0.6:
+            if (relay is not None and not any(i["src"][0] == relay for c in comps for i in c["inputs"])
+                    and not any(i["src"][0] == relay for i in ins) and rng.random() < 0.6):
+                # the relay is read over ONE link only (several readers at diverging times: known finding F16)
                 ins.append({"src": [relay, 0], "chain": [["fixed", unit * rng.choice([1, 2, 3])]] if rng.random() < 0.5 else []})
                 continue
             s0 = rng.choice(srcs)
